@@ -26,7 +26,10 @@ TAttachRet == Step("attach_ret") /\ UNCHANGED <<scen, call, wires, owed>> /\
         \* a connection that announces the identity of an older one supersedes it: the older one no longer is "the peer of that identity"
         /\ gone' = (IF Fld(E, "auto", FALSE) THEN gone ELSE gone \cup {c \in conn : ident[c] = E.id})
         \* an identity the socket assigned itself must not collide with that of another connected peer
-        /\ IF Fld(E, "auto", FALSE) /\ \E c \in conn \ gone : ident[c] = E.id THEN Flag("C09/auto-identity-not-unique") ELSE NoFlag
+        /\ IF Fld(E, "auto", FALSE) /\ \E c \in conn \ gone : ident[c] = E.id THEN Flag("C09/auto-identity-not-unique")
+           \* a peer that announced a (non-empty) identity is registered - labelled and addressed - under exactly that identity, whatever its socket type
+           ELSE IF ~Fld(E, "auto", FALSE) /\ Has(E, "announced") /\ E.announced # E.id THEN Flag("C09/announced-identity-not-used")
+           ELSE NoFlag
    ELSE UNCHANGED <<avars, hits, joined, jwait, gone>> /\ NoFlag
 TWrote == Step("peer_wrote") /\ UNCHANGED <<scen, call, wires, svars>> /\ NoFlag /\ DoWrote(E.c, E.m)
 \* the peer's end is closed / its pipe broken: from now on it counts as departed (sends to it may fail or succeed
